@@ -24,6 +24,7 @@ func main() {
 	_ = flag.String("corpus", "", "unused")
 	known := flag.String("known", "", "known_findings.json")
 	workers := flag.Int("workers", 16, "parallel workers")
+	child := flag.Bool("child", false, "internal: the in-process stress part of C08")
 	flag.Parse()
 
 	rep := lib.NewReport(*prop, *tier, *seed)
@@ -45,8 +46,14 @@ func main() {
 		err = run.ReplayC08(*replay)
 	case *prop == "C07":
 		run.RunC07()
+	case *prop == "C08" && *child:
+		run.RunC08Child()
 	case *prop == "C08":
-		run.RunC08()
+		self, err2 := os.Executable()
+		if err2 != nil {
+			self = os.Args[0]
+		}
+		run.RunC08(self, *known)
 	default:
 		fmt.Fprintln(os.Stderr, "unknown property", *prop)
 		os.Exit(3)
